@@ -284,6 +284,35 @@ def r15c(ctx, run):
         raise LookupError("const_data matches in const_ty: %d" % n)
 
 
+def r15i(ctx, run):
+    """classifier and evaluator agree on what is looked THROUGH: an expression kind that const_data evaluates by evaluating an operand (a recursive
+    self.const_data call in that kind's arm) is a kind whose operand get_const examines (its arm queues an operand on to_check whenever it answers
+    Const).  Otherwise whatever sits in the operand - a `:=` local, an extern global - is evaluated as a constant although nothing tested it."""
+    fn, m, rows = classifier_rows(ctx)
+    cd = ctx.syn.fn("GlobalInferenceCtx::const_data", G)
+    ms = [x for x in synq.matches_on(cd.body) if canon(x["e"]).startswith("&self.world_bodies[")]
+    if len(ms) != 1:
+        raise LookupError("match in const_data")
+    through = {}
+    for h, p, g, b, arm in synq.match_table(ms[0]):
+        if not h or not h.startswith("Expr::"):
+            continue
+        if any(x.get("k") == "mcall" and x["m"] == "const_data" and canon(x["r"]) == "self" for x in walk(b)):
+            through[synq.last_seg(h)] = arm["ln"]
+    if len(through) < 3:
+        raise LookupError("arms of const_data that evaluate an operand: %s" % sorted(through))
+    for kind, ln in sorted(through.items()):
+        krows = [(cfg, t, res, pushed) for k, cfg, t, res, pushed in rows if k == kind]
+        if not krows:
+            run.finding("GlobalInferenceCtx::const_data", "looks-through:" + kind, cd.file, ln, "const_data evaluates the operand of Expr::%s, a kind the classifier's table does not list" % kind)
+            continue
+        blind = [(cfg, t) for cfg, t, res, pushed in krows if res == "Const" and not pushed]
+        run.check(not blind, cd.site(ln), "Expr::%s: evaluated through its operand, and get_const examines that operand whenever it answers Const" % kind,
+                  "GlobalInferenceCtx::const_data", "looks-through:" + kind, cd.file, ln,
+                  "const_data evaluates an Expr::%s by evaluating its operand, but get_const answers Const for it without queueing the operand (%s): a mutable local or an extern "
+                  "global inside is then used as a compile-time constant with the value of its initialiser" % (kind, "; ".join("%s type-valued=%s" % (c_, t_) for c_, t_ in blind[:3])))
+
+
 def r15d(ctx, run):
     """must-pass-through on MIR: in finish_body every path from the entry to the normal return passes the constness test of the global's
     body (get_const), except through the test's own conditions (`global` false, builtin bodies) and the `?` error returns"""
@@ -606,5 +635,6 @@ def rules(ctx):
         Rule("R15.g", "a sub-expression is looked up in the type tables of the location its node was fetched from (lexically resolved)", 6, r15g),
         Rule("R15.h", "the argument tested for constness is the comptime parameter's own argument: positional selection needs varargs-free prefixes", 1, r15h),
         Rule("R15.f", "a comptime parameter evaluates to the comptime argument at its comptime_idx (lexically resolved index of every comptime_args() lookup)", 2, r15f),
+        Rule("R15.i", "an expression kind const_data evaluates through its operand is a kind whose operand get_const examines (classifier vs evaluator)", 3, r15i),
         Rule("R15.c", "classifier and evaluator agree: Const integer-capable kinds have value-producing const_data arms", 8, r15c),
     ]
